@@ -27,7 +27,10 @@ def run_config(cfg):
 
 def run(pid, tier, seed, cfgs, assumptions, only=None, extra=None):
     rep = report.Report(pid, tier, seed)
-    cfgs = [c for c in cfgs if not only or c['name'] in only]
+    cfgs = [dict(c) for c in cfgs if not only or c['name'] in only]
+    for c in cfgs:
+        # wall-clock guard per configuration (a cap is reported as a cap)
+        c.setdefault('budget_s', 150 if tier == 'quick' else 1100)
     order = list(range(len(cfgs)))
     random.Random(seed).shuffle(order)
     res = par.pmap('harness.l2run:run_config', [cfgs[i] for i in order])
